@@ -367,4 +367,59 @@ pub fn run(run: &mut Run) {
             }
         }
     }
+
+    // ---- (f) text-consuming built-ins over long and degenerate numeric texts: digit runs of
+    //      every length around the widths at which 64/128-bit accumulators and powers of ten
+    //      overflow, with leading zeros, fractions, exponents, signs and unit suffixes
+    run.sub("numeric-texts");
+    {
+        let lens = [0usize, 1, 2, 9, 10, 17, 18, 19, 20, 21, 37, 38, 39, 40, 41, 63, 64, 65, 127, 128, 129, 200, 309, 310, 400, 1100];
+        let mut bodies: Vec<String> = vec![];
+        for &n in lens.iter() {
+            bodies.push("9".repeat(n));
+            bodies.push(format!("{}1", "0".repeat(n)));
+            bodies.push(format!("0.{}1", "0".repeat(n)));
+            bodies.push(format!("1.{}", "9".repeat(n)));
+            bodies.push(format!("{}.{}", "9".repeat(n), "9".repeat(n)));
+            bodies.push(format!("1e{}", "9".repeat(n)));
+            bodies.push(format!("1e-{}", "9".repeat(n)));
+            bodies.push(format!("0x{}", "f".repeat(n)));
+        }
+        let suffixes = ["", "s", "h", "ns", "ms", "u", "m1s", "Z"];
+        let progs: Vec<(String, Program)> = ["duration(v)", "timestamp(v)", "int(v)", "uint(v)", "double(v)", "string(v)", "bytes(v)", "v.matches(v)", "timestamp('2000-01-01T00:00:00' + v)", "duration('1h' + v)"]
+            .iter()
+            .map(|s| (s.to_string(), Program::compile(s).unwrap()))
+            .collect();
+        for body in bodies.iter() {
+            for sign in ["", "-", "+"] {
+                for suf in suffixes.iter() {
+                    let text = format!("{}{}{}", sign, body, suf);
+                    let mut c2 = ctx.new_inner_scope();
+                    c2.add_variable_from_value("v", text.clone());
+                    for (src, p) in progs.iter() {
+                        if !run.take() {
+                            continue;
+                        }
+                        let r = guard(|| p.execute(&c2).is_ok());
+                        run.trans(1);
+                        run.validated();
+                        let short: String = text.chars().take(24).collect();
+                        let case = || json!({"program": src, "v_len": text.len(), "v_prefix": short, "v": if text.len() <= 200 { text.clone() } else { String::new() }});
+                        match &r {
+                            Ok(ok) => {
+                                if !ok {
+                                    run.nontrivial();
+                                }
+                                run.class(&format!("numtext:{}:{}", src, if *ok { "ok" } else { "err" }), case);
+                            }
+                            Err(pn) => {
+                                run.class(&format!("numtext:{}:panic", src), case);
+                                run.fail(&format!("C02|numeric-text|{}|panic|{}", src, crate::core::panic_kind(pn)), format!("`{}` with v = {:?}... ({} chars) panicked: {}", src, short, text.len(), pn), case());
+                            }
+                        }
+                    }
+                }
+            }
+        }
+    }
 }
